@@ -74,3 +74,12 @@ PROPS["C20"] = {
   "components": {"real": REAL_LIB, "stub": ["reference environment model (oracle)"]},
   "assumptions": ["integer vs boolean at scanner level is deliberately unchecked (same object type in the implementation, undocumented)", "NULL string values are not passed at scanner level (unspecified)", "save+load is skipped once a rules-level string define happened (that history aborts in save: C08 finding)"],
 }
+
+PROPS["C15"] = {
+  "engine": "sim_clock", "variant": "cov", "level": "exploration",
+  "parts": [{"args": ["--mode", "time"], "variant": "cov", "max_workers": 9}, {"args": ["--mode", "limits"], "variant": "small"}],
+  "budget_quick": 60, "budget_thorough": 1200,
+  "rule": "(a) timeouts under a simulated clock (the scanner's only clock): nine long-running workloads (dense/sparse atoms and a pathological regex on growing data, flat / 4-deep nested / for-of / uintN loops with growing bounds, a module function in a loop with growing bound and with growing data) at 3-4 geometric scales; the clock jumps past the deadline at clock read j for EVERY j of the fault-free run when that has <=160 (quick) / 2000 (thorough) reads, seeded sample above; oracle: TIMEOUT returned at that read with at most one further read and no rule/finished message afterwards, zero timeout => zero reads, same scanner usable afterwards; check density: the largest stretch of work (executed basic blocks, from -fsanitize-coverage=trace-pc) between two clock reads must not grow when the workload grows x4. (b) a string reaches the match cap (lowered to 96 by the build knob): CONTINUE => success, at most one warning per string, other rules' results equal those with the offending rule compiled out, muting ends with the scan; ABORT/ERROR => TOO_MANY_MATCHES. (c) boundary table: loop nesting, strings per rule, include depth, identifier length, integer literal, regex size / split ids, VM stack, regex fibers, match data at 1, L-1, L, L+1, 10L: only the documented error, monotone, enforced far beyond, library usable afterwards. Non-trivial = a clock jump, limit or warning actually fired; distinct = distinct (workload, scale, j) / (case, reply) / (limit, size).",
+  "components": {"real": REAL_LIB, "stub": ["clock_gettime (simulated: advances only by script)", "scan callback replies", "work counter = compiler-inserted basic-block callback in scanner.c scan.c exec.c re.c modules.c object.c notebook.c hash.c rules.c libyara.c arena.c and all module sources"]},
+  "assumptions": ["time inside libcrypto (hash.*) is not instrumented and not measured", "delay after the deadline is measured in work between clock reads, not in wall time", "boundary semantics at exactly L-1/L/L+1 are not pinned (either outcome accepted) - only the error kind, monotonicity and enforcement far beyond the limit"],
+}
